@@ -6,7 +6,7 @@
    known finding F10).  None = the Go code would index out of range. *)
 From Coq Require Import List ZArith Bool.
 Import ListNotations.
-From V Require Import Model.SyncRingConc Proofs.SyncRingConc Proofs.SyncRingConcTop.
+From V Require Import Model.SyncRingConc Proofs.SyncRingConc Proofs.SyncRingConcTop Proofs.SyncRingSeqState Proofs.SyncRingShort.
 Local Open Scope Z_scope.
 
 (* the freshly initialised ring of capacity 2^k satisfies the invariant, for every k in [1,31] and thread count *)
@@ -62,3 +62,32 @@ Theorem c01_pushers_progress : forall k c0, Inv k c0 -> Forall (fun p => p = Idl
   Forall (fun p => p = Idle) (ths c) -> exists j, In (j, RPush true) (hist c).
 Proof. exact pushers_progress. Qed.
 Print Assumptions c01_pushers_progress.
+
+(* every state the correspondence run starts from — any number [base] of completed push/pop pairs (counters beyond
+   2^32 included), then [fill] stored values, any rotation — satisfies the invariant *)
+Theorem c01_sequential_states_invariant : forall k base fill n,
+  1 <= k <= 31 -> 0 <= base -> 0 <= fill <= 2 ^ k -> Inv k (seq_state k base fill n).
+Proof. exact seq_state_inv. Qed.
+Print Assumptions c01_sequential_states_invariant.
+
+(* a schedule of at most 2^32 steps started with no operation in flight is always Fresh *)
+Theorem c01_short_schedules_fresh : forall c0 sched,
+  Forall (fun p => p = Idle) (ths c0) -> Z.of_nat (length sched) <= M32 -> fresh_run c0 sched.
+Proof. exact short_schedules_are_fresh. Qed.
+Print Assumptions c01_short_schedules_fresh.
+
+(* hence, with no hypothesis on the schedule other than its length: from every sequentially reachable state,
+   for every thread count and every interleaving of at most 2^32 steps *)
+Theorem c01_unconditional : forall k base fill n sched c,
+  1 <= k <= 31 -> 0 <= base -> 0 <= fill <= 2 ^ k -> Z.of_nat (length sched) <= M32 ->
+  run (seq_state k base fill n) sched = Some c ->
+  Inv k c /  0 <= tl (sh c) - hd (sh c) <= 2 ^ k /\ Z.of_nat (length (q (sh c))) = tl (sh c) - hd (sh c) /  replay (2 ^ k) (lin (sh c)) [] = Some (q (sh c)) /  (forall i v g, In (i, RPop v (Some g)) (hist c) -> v = Some g) /  ~ race c /  len_of (u32 (tl (sh c))) (u32 (hd (sh c))) (cap (sh c)) = Z.of_nat (length (q (sh c))).
+Proof. exact syncring_unconditional. Qed.
+Print Assumptions c01_unconditional.
+
+(* results of the observers, under any interleaving: Len() within [0, cap]; IsEmpty / IsFull are booleans
+   (their exactness at quiescence is the len_of clause above) *)
+Theorem c01_observer_results : forall k c, Inv k c ->
+  forall i o z cp, In (i, RObs o z cp) (hist c) -> match o with KLen => 0 <= z <= cp | _ => z = 0 \/ z = 1 end.
+Proof. exact observer_results. Qed.
+Print Assumptions c01_observer_results.
